@@ -31,6 +31,10 @@ Theorem all_sites_recognised : forallb recognised sites = true.
 Proof. exact all_sites_recognised_proof. Qed.
 Print Assumptions all_sites_recognised.
 
+Theorem site_table_matches : site_table = map (fun s => (capacity s, swrite s)) sites.
+Proof. exact site_table_matches_proof. Qed.
+Print Assumptions site_table_matches.
+
 (* ... and it found the buffers the property is anchored in *)
 Theorem anchored_sites_present :
   forallb has_site
